@@ -287,3 +287,50 @@ def lift_build(beh, idx):
             {"op": "observe", "seg": 9, "level": "full"}]
     return {"name": "E2-build-%d" % beh["id"], "norm": "code" if idx % 2 == 0 else "invsqrt",
             "universe": ["_id", "a", "b", "c", "nosuchfield"], "batches": [beh["batch"]], "ops": ops, "tags": ["e2build"]}
+
+
+def lift_locstream(beh, idx):
+    """LocStream configuration -> a segment with 131 fields whose term g000:t has exactly the modelled postings and
+    locations (field ids on both sides of 127/128, components on both sides of the varint widths), read with the
+    modelled read/skip pattern - by Advance, and again with the skipped documents excluded - on the built and on
+    the merged segment."""
+    names = ["g%03d" % k for k in range(130)]            # ids 1..130; "_id" is id 0
+
+    def fname(fid):
+        return "_id" if fid == 0 else names[fid - 1]
+    anchor = [id_inst(0)] + [{"name": f, "len": 0, "stored": False, "value": [], "dv": False, "terms": []} for f in names]
+    batch = [anchor]
+    for p, ls in enumerate(beh["posts"]):
+        locs = [{"field": fname(l["field"]), "pos": l["pos"], "start": l["start"], "end": l["end"]} for l in ls]
+        freq = max(1, len(locs)) + (p % 2)
+        batch.append([id_inst(p + 1), {"name": "g000", "len": freq, "stored": False, "value": [], "dv": False,
+                                       "terms": [{"term": B("t"), "freq": freq, "locs": locs}]}])
+    mode = [1, 2, 0, 3][idx % 4]
+    ops = [{"op": "build", "seg": 1, "batch": 0, "mode": mode},
+           {"op": "merge", "file": 1, "in": [1], "drops": [{"kind": "nil"}], "mode": [2, 0, 1][idx % 3], "buf": 64},
+           {"op": "load", "file": 1, "seg": 2, "backing": "file" if idx % 2 else "mem"}]
+    plan = beh["plan"]
+    skipped = [p + 1 for p, a in enumerate(plan) if a == "skip"]
+    for seg in (1, 2):
+        # (1) skipped postings are stepped over by Advance
+        ops += [{"op": "pl_open", "seg": seg, "field": "g000", "term": B("t"), "pl": 10 * seg},
+                {"op": "it_open", "pl": 10 * seg, "it": 10 * seg + 1, "freq": True, "norm": True, "locs": True}]
+        pending = False
+        for p, a in enumerate(plan):
+            if a == "skip":
+                pending = True
+            elif pending:
+                ops.append({"op": "it_adv", "it": 10 * seg + 1, "d": p + 1, "model_exp": p + 1})
+                pending = False
+            else:
+                ops.append({"op": "it_next", "it": 10 * seg + 1, "model_exp": p + 1})
+        # (2) skipped postings are excluded
+        ops += [{"op": "pl_open", "seg": seg, "field": "g000", "term": B("t"), "pl": 10 * seg + 2,
+                 "except": {"kind": "set", "docs": skipped}},
+                {"op": "it_open", "pl": 10 * seg + 2, "it": 10 * seg + 3, "freq": True, "norm": True, "locs": True}]
+        for p, a in enumerate(plan):
+            if a == "read":
+                ops.append({"op": "it_next", "it": 10 * seg + 3, "model_exp": p + 1})
+        ops.append({"op": "it_next", "it": 10 * seg + 3, "model_exp": -1})
+    return {"name": "E2-loc-%d" % idx, "norm": "code", "universe": ["_id", "g000", "g126", "g127"], "batches": [batch], "ops": ops,
+            "tags": ["e2loc"]}
